@@ -443,6 +443,25 @@ def check_override_then_merge(spec, res, desc, ov, override, port):
                          strip_fn(want)), 'composer.py:merge')
             return
     res.label('override.then_merge')
+    if ov['var'] != 'acc':
+        return
+    # an override merged in after the composite was loaded once must show
+    # in the store the next time it is loaded
+    p2, s2, f2, t2 = kit.make_part(desc, 0)
+    comp2 = Composite({'processes': p2, 'steps': s2, 'flow': f2,
+                       'topology': t2})
+    comp2.generate_store()
+    comp2.merge(schema_override=override)
+    store = comp2.generate_store()
+    node = store.get_path(('own', ov['proc'], 'acc'))
+    if node.emit != ov['emit'] or node.properties.get('mark') != 1:
+        res.fail('override.second_load', 'override %r merged after a first '
+                 'generate_store(): the store generated afterwards has emit=%r '
+                 'properties=%r at own/%s/acc' % (override, node.emit,
+                                                  node.properties, ov['proc']),
+                 'store.py:_generate_paths')
+        return
+    res.label('override.after_first_load')
 
 
 def strip_fn(x):
